@@ -194,6 +194,86 @@ theorem C06_warn_tree (rq : Request) (stores : List Store) (hab : rq.abort = fal
   ⟨C06_warn_ok treeMerge rq stores hab hlim,
    C06_warn_reported treeMerge (mergeMem_of_spec losertree_refines) rq stores hab hlim st hst⟩
 
+/-! ### one level up: the querier (`querier.selectFn`) — what the user of the Query API sees -/
+
+theorem mem_collect_warning (fs : List Frame) (m : Bytes) (hm : m ≠ []) (h : Frame.warning m ∈ fs) :
+    m ∈ (collectAnswer fs).2 := by
+  simp only [collectAnswer, List.mem_filterMap]
+  refine ⟨_, h, ?_⟩
+  have : m.isEmpty = false := by cases m <;> simp_all
+  simp [this]
+
+/-- **C06 at the querier, warn strategy.**  Whatever fails — including when *every* store fails or
+    the healthy ones return nothing, so that the merged result has no series at all — `Select`
+    succeeds and its annotations contain the warning of each failed store. -/
+theorem C06_querier_warn (merge : List (List Frame) → List Frame) (hm : MergeMem merge)
+    (rq : Request) (stores : List Store) (hab : rq.abort = false) (hlim : rq.limit = 0)
+    (st : Store) (hst : st ∈ stores) :
+    (selectFnWith false merge rq stores).failed = false ∧
+    (st.openErr = true → st.openMsg ≠ [] → st.openMsg ∈ (selectFnWith false merge rq stores).warnings) ∧
+    (st.openErr = false → FailsInStream st → failureMsg st ≠ [] →
+      failureMsg st ∈ (selectFnWith false merge rq stores).warnings) := by
+  have hok := C06_warn_ok merge rq stores hab hlim
+  have hrep := C06_warn_reported merge hm rq stores hab hlim st hst
+  unfold selectFnWith
+  generalize proxySeriesWith merge rq stores = r at hok hrep
+  obtain ⟨out, oc⟩ := r
+  simp only at hok hrep
+  subst hok
+  simp only [Bool.false_and, Bool.false_eq_true, if_false]
+  exact ⟨trivial, fun ho hne => mem_collect_warning out _ hne (hrep.1 ho),
+    fun ho hf hne => mem_collect_warning out _ hne (hrep.2 ho hf)⟩
+
+/-- **C06 at the querier, abort strategy.**  If a queried store fails, `Select` fails. -/
+theorem C06_querier_abort (merge : List (List Frame) → List Frame) (hm : MergeMem merge)
+    (rq : Request) (stores : List Store) (hab : rq.abort = true) (hlim : rq.limit = 0)
+    (st : Store) (hst : st ∈ stores)
+    (hfail : st.openErr = true ∨ (FailsInStream st ∧ failureMsg st ≠ [])) (d : Bool) :
+    (selectFnWith d merge rq stores).failed = true := by
+  have h := C06_abort merge hm rq stores hab hlim st hst hfail
+  unfold selectFnWith
+  generalize proxySeriesWith merge rq stores = r at h
+  obtain ⟨out, oc⟩ := r
+  cases oc <;> simp_all
+
+/-- the same for the querier as it is (`selectFn` = no fast path, loser-tree merge) -/
+theorem C06_querier_tree (rq : Request) (stores : List Store) (hlim : rq.limit = 0) (st : Store) (hst : st ∈ stores) :
+    (rq.abort = false →
+      (selectFn rq stores).failed = false ∧
+      (st.openErr = true → st.openMsg ≠ [] → st.openMsg ∈ (selectFn rq stores).warnings) ∧
+      (st.openErr = false → FailsInStream st → failureMsg st ≠ [] → failureMsg st ∈ (selectFn rq stores).warnings)) ∧
+    (rq.abort = true → (st.openErr = true ∨ (FailsInStream st ∧ failureMsg st ≠ [])) →
+      (selectFn rq stores).failed = true) :=
+  ⟨fun hab => C06_querier_warn treeMerge (mergeMem_of_spec losertree_refines) rq stores hab hlim st hst,
+   fun hab hf => C06_querier_abort treeMerge (mergeMem_of_spec losertree_refines) rq stores hab hlim st hst hf false⟩
+
+/-- Why "the warnings are read on every successful path" is an obligation: a variant of `selectFn`
+    that returns an empty series set before reading them loses the warning of a store that fails
+    before its first series (one store, Recv fails at once, warn strategy). -/
+theorem C06_querier_fastpath_false :
+    ¬ (∀ (rq : Request) (stores : List Store) (st : Store), rq.abort = false → rq.limit = 0 → st ∈ stores →
+        st.openErr = false → FailsInStream st → failureMsg st ≠ [] →
+        failureMsg st ∈ (selectFnWith true treeMerge rq stores).warnings) := by
+  intro h
+  have := h { fixedDedup := true, lazy := true, batchSize := 0, limit := 0, abort := false, dedup := true, sharded := false, without := [] }
+    [{ supportsSharding := true, supportsWithout := true, openErr := false, failure := .recvErr 0, frames := [],
+       recvMsg := [114], timeoutMsg := [116], openMsg := [111] }]
+    { supportsSharding := true, supportsWithout := true, openErr := false, failure := .recvErr 0, frames := [],
+      recvMsg := [114], timeoutMsg := [116], openMsg := [111] }
+    rfl rfl (by simp) rfl (Or.inl ⟨0, rfl, by simp⟩) (by decide)
+  revert this
+  decide
+
+/-- `selectFn` in the sources: the two successful returns both carry `warns` (directly, or through
+    `set`, which is built with `warns`), and `warns` is the collected `resp.warnings` -/
+theorem C06_fact_querier :
+    Thanos.Facts.selectFnSuccessReturns =
+      ["NewPromSeriesSet( newStoreSeriesSet(resp.seriesSet), q.mint, q.maxt, aggrs, warns, )",
+       "dedup.NewSeriesSet(set, hints.Func, q.deduplicationFunc)"] ∧
+    Thanos.Facts.selectFnWarns = ["warns := annotations.New().Merge(resp.warnings)",
+       "set := NewPromSeriesSet( dedup.NewOverlapSplit(newStoreSeriesSet(resp.seriesSet)), q.mint, q.maxt, aggrs, warns, )"] ∧
+    Thanos.Facts.seriesServerWarning = "r.GetWarning() != \"\"" := ⟨rfl, rfl, rfl⟩
+
 /-! ### regenerated facts: the strategy tests in the sources -/
 
 /-- the fan-out loop continues after a failing `Series()` call only under the warn strategy, and
@@ -226,5 +306,12 @@ example : (proxySeries { rqW with abort := true } [okStore [(ser 1, true)],
       { okStore [(ser 2, true)] with failure := .hang 0 }]).2 = .aborted := by decide
 example : (proxySeries { rqW with abort := true } [okStore [(ser 1, true)], { okStore [] with openErr := true }]).2
     = .openFailed := by decide
+
+-- the querier level, zero-series case: both stores fail before their first series; the warn strategy
+-- still succeeds with both warnings, the abort strategy fails
+example : (selectFn rqW [{ okStore [(ser 1, true)] with failure := .recvErr 0 }, { okStore [] with openErr := true }]).warnings
+    = [[111], [114]] := by decide
+example : (selectFn rqW [{ okStore [(ser 1, true)] with failure := .recvErr 0 }, { okStore [] with openErr := true }]).series = [] := by decide
+example : (selectFn { rqW with abort := true } [{ okStore [(ser 1, true)] with failure := .hang 0 }]).failed = true := by decide
 
 end Thanos.Merge
